@@ -383,7 +383,7 @@ pub fn c06(cx: &Ctx, v: &mut Vec<Violation>) {
                 let e_inv = cx.has_err_on(i, EK::InvalidNumericLiteral);
                 let e_unt = cx.has_err_on(i, EK::UnterminatedHexNumericLiteral);
                 let ok = match ty {
-                    T::IntegerLiteral => (digits(bs) && !e_unt && !e_inv) || (hexrun_x(bs) && !e_unt && !e_inv) || (e_unt && !e_inv && hexrun(bs)),
+                    T::IntegerLiteral => (digits(bs) && !e_unt && !e_inv) || (hexrun_x(bs) && !e_unt && !e_inv) || ((e_unt || e_inv) && hexrun(bs)),
                     T::FloatExponentLiteral => {
                         !e_inv && !e_unt
                             && exp_split(bs).map_or(false, |(m, ex)| {
@@ -394,12 +394,10 @@ pub fn c06(cx: &Ctx, v: &mut Vec<Violation>) {
                     _ => {
                         if !e_inv && !e_unt {
                             mantissa(bs)
-                        } else if e_inv {
-                            let empty_exp = !e_unt && exp_split(bs).map_or(false, |(m, ex)| mantissa(m) && (ex.is_empty() || ex == b"+" || ex == b"-"));
-                            let hx = (hexrun(bs) && e_unt) || (hexrun_x(bs) && !e_unt);
-                            empty_exp || hx
                         } else {
-                            false
+                            // a malformed literal, whichever of the two error kinds names it (C08's last sentence)
+                            let empty_exp = exp_split(bs).map_or(false, |(m, ex)| mantissa(m) && (ex.is_empty() || ex == b"+" || ex == b"-"));
+                            empty_exp || hexrun(bs) || hexrun_x(bs)
                         }
                     }
                 };
@@ -701,14 +699,13 @@ pub fn c08(cx: &Ctx, v: &mut Vec<Violation>, classes: &mut Vec<&'static str>) {
             classes.push("malformed");
             // the token spans exactly the malformed literal: maximality on both sides
             let after = cx.src[t.e as usize..].chars().next();
-            let shape_ok = if e_unt && !e_inv {
-                hexrun(bs) && !matches!(after, Some(c) if c.is_ascii_hexdigit() || c == 'x' || c == 'X')
-            } else if e_inv && !e_unt {
+            // (which of the two error kinds names the fault is not part of the property: "an invalid-literal or
+            // missing-x error" - a hex run without its x may carry either or both; C11 fixes the kinds for open code)
+            let shape_ok = {
+                let hex_no_x = hexrun(bs) && !matches!(after, Some(c) if c.is_ascii_hexdigit() || c == 'x' || c == 'X');
                 let empty_exp = exp_split(bs).map_or(false, |(m, ex)| mantissa(m) && (ex.is_empty() || ex == b"+" || ex == b"-")) && !matches!(after, Some(c) if c.is_ascii_digit());
-                let hx = hexrun_x(bs) && u64::from_str_radix(&raw[..raw.len() - 1], 16).is_err();
-                empty_exp || hx
-            } else {
-                hexrun(bs) && u64::from_str_radix(raw, 16).is_err() && !matches!(after, Some(c) if c.is_ascii_hexdigit() || c == 'x' || c == 'X')
+                let hx_overflow = hexrun_x(bs) && u64::from_str_radix(&raw[..raw.len() - 1], 16).is_err();
+                hex_no_x || empty_exp || hx_overflow
             };
             if !shape_ok {
                 let core = bs.strip_suffix(b"x").or_else(|| bs.strip_suffix(b"X")).unwrap_or(bs);
